@@ -75,6 +75,7 @@ func c10Build(scenario string, variant int, now time.Time) (world.Spec, obs.HTTP
 	relay := []string{"rs-1", A, "a&b <c>"}[(variant/3)%3]
 	hosts := []string{"idp.example", "idp.example:8443"}
 	host := hosts[(variant/9)%2]
+	spec.IdP.IDPInsecure = variant%2 == 1
 	if (variant/18)%2 == 1 {
 		spec.IdP.IssuerMode, spec.IdP.IssuerPath = "host", "/saml"
 	}
